@@ -168,7 +168,11 @@ fn writers<T: Serialize + ?Sized>(ctx: &mut Ctx, what: &str, x: &T, model: Resul
     }
     // custom indentation through Serializer::with_formatter(PrettyFormatter::with_indent(..)):
     // the same re-indentation rule with another indent unit
-    for unit in [&b"\t"[..], b" ", b"    ", b"", b"        "] {
+    // (units whose length does not divide a power of two, mixed units and units longer than any
+    // scratch block rotate with the output's length)
+    const ODD_UNITS: [&[u8]; 9] = [b"   ", b"     ", b" \t ", b"       ", b"      ", b"\t\t\t", b"                                 ", b"\r\n", &[b' '; 129]];
+    let rot = out.len() % 9;
+    for unit in [&b"\t"[..], b" ", b"    ", b"", b"        ", ODD_UNITS[rot], ODD_UNITS[(rot + 4) % 9]] {
         let mut ser = sonic_rs::Serializer::with_formatter(Vec::new(), sonic_rs::format::PrettyFormatter::with_indent(unit));
         if x.serialize(&mut ser).is_ok() {
             let got = ser.into_inner();
@@ -183,7 +187,7 @@ fn writers<T: Serialize + ?Sized>(ctx: &mut Ctx, what: &str, x: &T, model: Resul
             ctx.fail(&format!("pretty-custom-indent-failed:{}", what), format!("indent {:?}", String::from_utf8_lossy(unit)));
         }
     }
-    ctx.ops(19);
+    ctx.ops(21);
     // pretty = re-indented compact
     let want_pretty = esc::pretty(&out);
     if pretty != want_pretty {
@@ -406,7 +410,7 @@ impl Check for C05 {
         // inputs": chunking, a plain-prefix copy, a smaller reservation), ASCII and multi-byte
         // fillers, one special sequence near the end or none
         if g.scale >= 0.5 {
-            for i in 0..(if g.tier == Tier::Quick { 32u64 } else { 160 }) {
+            for i in 0..(if g.tier == Tier::Quick { 48u64 } else { 240 }) {
                 if g.mine(9000 + i) {
                     emit(Case::with("huge", vec![], &[i as i64]));
                 }
@@ -461,10 +465,10 @@ impl Check for C05 {
             }
             "huge" => {
                 let i = c.p(0) as usize;
-                const LENS: [usize; 8] = [262_144, 262_145, 262_151, 262_175, 300_001, (1 << 20) + 5, (4 << 20) + 33, 5_242_883];
+                const LENS: [usize; 12] = [262_144, 262_145, 262_151, 262_175, 300_001, (1 << 20) + 5, (4 << 20) + 33, 5_242_883, 65_536, 65_551, 65_567, 131_073 + 16];
                 const SPECIALS: [&str; 8] = ["\n", "\"", "\\", "\u{1f}", "\u{0}", "\t", "\r\n", ""];
                 const BACK: [usize; 8] = [0, 1, 5, 13, 30, 31, 32, 40];
-                let len = LENS[i % 8] + (i / 32) * 3;
+                let len = LENS[i % 12] + (i / 48) * 3;
                 let filler: &[&str] = [&["QUJD", "RUZH", "0123", "abcd"][..], &["中", "文", "字"][..], &["é", "ü", "ñ"][..], &["a", "é", "中", "😀", "bcdefgh"][..]][(i / 2) % 4];
                 let special = SPECIALS[(i / 8 + i) % 8];
                 let back = BACK[(i * 3 + i / 8) % 8];
